@@ -611,7 +611,7 @@ func frameRun() {
 				fail(fmt.Sprintf("context-rejected/%s/%d", c.Cname, i), fmt.Sprintf("valid context frame %d (%+v) answered %v", i, cs, v))
 			}
 			if !res.OK {
-				vh.Emit(res)
+				emitRes(res)
 				return
 			}
 		}
@@ -698,6 +698,6 @@ func frameRun() {
 		if xpan == "" && xv != v {
 			obs["xnet"] = xv[0] + ":" + xv[1]
 		}
-		vh.Emit(res)
+		emitRes(res)
 	})
 }
